@@ -1,6 +1,11 @@
 import FFVerif.Props.C13
 import FFVerif.Props.C08Inv
 import FFVerif.Props.C13Prop
+import FFVerif.Props.C01Unique
+import FFVerif.Props.C13Second
+import FFVerif.Props.C13SecondShifts
+import FFVerif.Props.C13SecondRefine
+import FFVerif.Props.C10Unique
 import FFVerif.Pins.pinControlMatrixFromScratch
 import FFVerif.Pins.pinDiagonalize
 #print axioms FFVerif.C13.segIntegral_split
@@ -60,5 +65,40 @@ import FFVerif.Pins.pinDiagonalize
 #print axioms FFVerif.C13.total_propagator_time_unit
 #print axioms FFVerif.C13.total_propagator_invariant
 #print axioms FFVerif.C13.isSegmentCut_of_model
+#print axioms FFVerif.C13.secondOrderEntry_scale
+#print axioms FFVerif.C13.secondOrder_masks_scale
+#print axioms FFVerif.C13.secondOrder_time_unit_of_guard
+#print axioms FFVerif.C13.firstOrderEntry_neZero_scale
+#print axioms FFVerif.C13.secondOrder_time_unit
+#print axioms FFVerif.C13.secondOrder_time_unit_neZero
+#print axioms FFVerif.C13.secondOrder_drop_zero_segments
+#print axioms FFVerif.C13.secondOrder_zero_dt_segment
+#print axioms FFVerif.C13.secondOrder_zero_dt_segment_congr
+#print axioms FFVerif.C13.secondOrder_perm_opers
+#print axioms FFVerif.C13.secondOrder_perm_basis
+#print axioms FFVerif.C13.secondOrder_split_segment_of_exact
+#print axioms FFVerif.C13.secondOrder_split_segment
+#print axioms FFVerif.C13.secondOrder_split_segment_masks
+#print axioms FFVerif.C13.isCutData_exists
+#print axioms FFVerif.C13.secondOrder_split_segment_model
+#print axioms FFVerif.C13.secondOrder_merge_equal
+#print axioms FFVerif.C13.secondOrder_coeffs_factor
+#print axioms FFVerif.C13.secondOrder_scale_coeffs
+#print axioms FFVerif.C13.secondOrder_linear_coeffs_left
+#print axioms FFVerif.C13.secondOrder_linear_coeffs_right
+#print axioms FFVerif.C13.secondOrder_linear_opers_right
+#print axioms FFVerif.C13.secondOrder_linear_opers_left
+#print axioms FFVerif.C13.shiftEntry_rescale
+#print axioms FFVerif.C13.frequency_shifts_rescale
+#print axioms FFVerif.C13.frequency_shifts_time_unit
+#print axioms FFVerif.C13.frequency_shifts_time_unit_coeffs
+#print axioms FFVerif.C13.frequency_shifts_split_segment
+#print axioms FFVerif.C13.frequency_shifts_zero_dt_segment
+#print axioms FFVerif.C13.secondOrder_refine
+#print axioms FFVerif.C10.secondOrderFF_eigh_independent
+#print axioms FFVerif.C01.cm_eigh_independent
+#print axioms FFVerif.C01.cm_eigh_independent_diagonalize
+#print axioms FFVerif.C01.ff_eigh_independent
+#print axioms FFVerif.C01.infidelity_eigh_independent
 #print axioms FFVerif.Pins.pinControlMatrixFromScratch
 #print axioms FFVerif.Pins.pinDiagonalize
